@@ -594,6 +594,7 @@ pub struct Universe {
     /// the universe can no longer be trusted for further runs
     pub poisoned: bool,
     cpu_at_release: u64,
+    planted: Vec<i32>,
 }
 
 static LISTENER: AtomicI32 = AtomicI32::new(-1);
@@ -734,6 +735,7 @@ impl Universe {
             baseline_fds: Vec::new(),
             runs: 0,
             poisoned: false,
+            planted: Vec::new(),
             cpu_at_release: 0,
         };
         // bootstrap: answer everything with "continue" until all workers are
@@ -1130,6 +1132,26 @@ impl Universe {
                     }
                     seam::HC_HARNESS => {
                         self.workers[t].harness_section = n.data.args[2] != 0;
+                    }
+                    seam::HC_PLANT => {
+                        let fdn = n.data.args[1] as i32;
+                        if n.data.args[2] != 0 {
+                            if fdn >= 0 && fdn < HARNESS_FD_MIN && sys::fcntl_getfd(fdn) < 0 {
+                                if let Ok(d) = sys::openat(libc::AT_FDCWD, b"/mnt/w/outside/secret", libc::O_RDONLY, 0) {
+                                    if d != fdn {
+                                        unsafe { libc::dup3(d, fdn, libc::O_CLOEXEC) };
+                                        sys::close(d);
+                                    }
+                                    self.planted.push(fdn);
+                                    out.probe("decoy_planted_in_leader_table");
+                                }
+                            } else {
+                                out.probe("decoy_slot_busy_in_leader_table");
+                            }
+                        } else if let Some(p) = self.planted.iter().position(|x| *x == fdn) {
+                            sys::close(fdn);
+                            self.planted.remove(p);
+                        }
                     }
                     seam::HC_NEXT_JOB => {
                         // finished worker parks again
